@@ -237,6 +237,9 @@ func TestC05(t *testing.T) {
 		}
 		n++
 		ptrs = ptrs[:0]
+		// a fresh application per history: state the application keeps on its own (the SendFile handler store, route tables)
+		// must start empty, so that what the probe sees can only come from THIS history
+		h = c05App(&ptrs)
 		for i, k := range cs.Hist {
 			serveWire(rc, h, c05Request(k, fmt.Sprintf("R%d", i+1)))
 		}
